@@ -10,6 +10,7 @@ RULE = ("ops {sigmoid, tanh, selu, softmax, log_softmax (every dim, ranks 1-3), 
         "random rows with spread 0..2e4 (probabilities underflowing), any labels / soft and hard targets, random upstream gradient; oracle = "
         "stable closed-form float64 value and gradient (validated against mpmath at 50 digits on a sub-sample each run); tolerance 1e-5*max(1,"
         "max|x|) + 1e-5*|exact| and finiteness; distinct key = (op, form, dtype, input class, args); non-trivial = max|x| >= 20")
+RULE += (' Added after the seeded rounds: the gradient with respect to learnable soft targets of BCE-with-logits.')
 ASSUMPTIONS = ["single-precision accuracy relative to the input magnitude is read as |err| <= 1e-5*max(1,max|x|) + 1e-5*|exact|, for both dtypes",
                "float32 cases: the exact result is computed in float64 from the float32-rounded inputs",
                "RuntimeWarnings (overflow in exp with a correct finite final result) are ignored"]
